@@ -1336,6 +1336,12 @@ func runL2(args []string) {
 			rep.addHolds("C08", Finding{Case: map[string]any{"directed": "argument list passed as one []any"}, Kind: "holds", Detail: w})
 		}
 		hyp["wrapped-argument-lists"] = 28
+		for _, w := range retryRejected() {
+			f := Finding{Case: map[string]any{"directed": "an invalid argument list passed again to the same Statement"}, Kind: "holds", Detail: w}
+			rep.addHolds("C08", f)
+			rep.addHolds("C16", f)
+		}
+		hyp["retried-invalid-lists"] = 30
 	}
 	hyp["concurrent-growth-calls"] = concurrentGrowth(rep)
 	hyp["concurrent-first-use-types"] = concurrentFirstUse(rep, cl, r.Fork())
